@@ -876,3 +876,266 @@ Section NoPanic.
         unfold run_transformers. apply np_bind; [apply np_label_transformers|]. intros; apply np_run_order; assumption.
   Qed.
 End NoPanic.
+
+(* ================= no Panic through the top-only steps ================= *)
+
+From KV Require Res.HashProofs.
+
+Lemma alphabet_no_comma c : HashProofs.in_suffix_alphabet c = true -> Ascii.eqb c ","%char = false.
+Proof.
+  intros H. destruct (Ascii.eqb c ","%char) eqn:E; [|reflexivity].
+  apply Ascii.eqb_eq in E. subst c. vm_compute in H. discriminate.
+Qed.
+
+Lemma hash_no_comma c h : Hash.hash_content c = Ok h -> no_char ","%char h = true.
+Proof.
+  intros H. destruct (HashProofs.hash_content_shape _ _ H) as [_ A]. clear H.
+  induction h as [|a t IH]; [reflexivity|]. cbn in A |- *. apply andb_true_iff in A as [A1 A2].
+  rewrite (alphabet_no_comma _ A1). cbn. auto.
+Qed.
+
+Section TopNoPanic.
+  Variable nonstr : string -> bool.
+
+  (* the hash step keeps resources well-formed *)
+  Lemma hash_res_W r r' : W r -> hash_res nonstr r = Ok r' -> W r'.
+  Proof.
+    intros HW H. unfold hash_res in H. destruct (r_needs_hash r) eqn:EN; [|inv H; exact HW].
+    destruct (_ || _); [|discriminate].
+    destruct (Hash.hash_content _) as [h| | |] eqn:EH; cbn [bind] in H; try discriminate.
+    destruct (hash_one_hist cs nonstr h r r' (hash_no_comma _ _ EH) (proj1 HW) H) as (Wr & (_ & K & _) & _).
+    split; [exact Wr|]. unfold hash_one in H. rewrite EN in H.
+    destruct (set_name nonstr _ _) as [n'| | |]; cbn [bind] in H; try discriminate. inv H.
+    pose proof (kinds_const_store r HW) as Hks.
+    unfold kinds_const in *. cbn [r_node r_pkinds with_node] in *. rewrite K.
+    rewrite store_previous_id_eq in *. cbn [r_node r_pkinds] in *. exact Hks.
+  Qed.
+
+  Lemma np_hash_res r : np (hash_res nonstr r).
+  Proof.
+    unfold hash_res. destruct (r_needs_hash r); [|discriminate]. destruct (_ || _); [|discriminate].
+    apply np_bind; [unfold Hash.hash_content, Hash.encode_suffix; np_case|]. intros h _.
+    unfold hash_one. destruct (r_needs_hash r); [|discriminate].
+    apply np_bind; [|intros; discriminate]. unfold set_name. apply np_bind; [|intros; discriminate].
+    unfold put. apply np_walk. intros x. unfold k_set_field. apply np_bind; [apply TotalityProofs.set_field_total|].
+    intros; discriminate.
+  Qed.
+
+  (* what the name-reference pass needs of every resource: a readable history and a non-empty name *)
+  Definition P (r : resource) : Prop := hist_ok r /\ get_name (r_node r) <> "".
+
+  Lemma W_P r : W r -> P r.
+  Proof.
+    intros [[Hh Hw] _]. split; [exact Hh|]. destruct (wf_node_good _ Hw) as (G & _).
+    unfold good in G. apply andb_true_iff in G as [G _]. apply negb_true_iff in G. apply String.eqb_neq. exact G.
+  Qed.
+
+  Lemma P_same_identity r r' : same_identity r r' -> P r -> P r'.
+  Proof.
+    intros [Hi (B1 & B2 & B3 & _)] [Hh Hn]. split.
+    - unfold hist_ok in *. rewrite B1, B2, B3. exact Hh.
+    - unfold ident in Hi. inversion Hi as [[A B C D]]. rewrite C. exact Hn.
+  Qed.
+
+  Lemma view_names l : forall cands,
+    Forall P l -> mapM (view cs) l = Ok cands -> Forall (fun c => c_name c <> "") cands.
+  Proof.
+    induction l as [|r t IH]; intros cands HP H; cbn [mapM] in H; [inv H; constructor|].
+    inversion HP as [|? ? Pr Pt]; subst.
+    destruct (view cs r) as [c| | |] eqn:E; cbn [bind] in H; try discriminate.
+    destruct (mapM (view cs) t) as [ct| | |]; cbn [bind] in H; try discriminate. inv H.
+    constructor; [|auto]. unfold view in E. destruct (prev_ids r); cbn [bind] in E; try discriminate. inv E. exact (proj2 Pr).
+  Qed.
+
+  Lemma np_view r : P r -> np (view cs r).
+  Proof. intros [Hh _]. unfold view. apply np_bind; [apply np_prev_ids; exact Hh|]. intros; discriminate. Qed.
+
+  Lemma Forall_select_by {A} (Q : A -> Prop) flags : forall l, Forall Q l -> Forall Q (select_by flags l).
+  Proof.
+    induction flags as [|b f IH]; intros l H; [destruct l; constructor|].
+    destruct H as [|x t Hx Ht]; [destruct b; constructor|]. destruct b; cbn; [constructor; auto|auto].
+  Qed.
+
+  Lemma sieve_in x old l c : In c (sieve4 x old l) -> In c l.
+  Proof. unfold sieve4. intros H. repeat (apply filter_In in H as [H _]). exact H. Qed.
+
+  Lemma np_nr_set x cands n : Forall (fun c => c_name c <> "") cands -> np (nr_set nonstr x cands n).
+  Proof.
+    intros Hc. rewrite Forall_forall in Hc.
+    assert (S1 : forall y, np (nr_set_scalar x cands y)).
+    { intros y. unfold nr_set_scalar. apply np_bind; [unfold select_referral; np_case|]. intros r Er.
+      destruct r as [c|]; [|discriminate]. destruct (String.eqb _ _); [discriminate|].
+      unfold set_string_scalar. destruct (String.eqb (c_name c) "") eqn:E; [|apply TotalityProofs.set_scalar_total].
+      exfalso. apply String.eqb_eq in E. apply select_referral_in, sieve_in in Er. exact (Hc _ Er E). }
+    assert (S2 : forall y, np (nr_set_mapping nonstr x cands y)).
+    { intros y. unfold nr_set_mapping. destruct y as [t s v|kvs|es]; try discriminate.
+      destruct (find_field "name" kvs); [|discriminate].
+      apply np_bind; [unfold select_referral; np_case|]. intros r Er. destruct r as [c|]; [|discriminate].
+      destruct (_ && _); [discriminate|].
+      assert (Hin : In c cands).
+      { apply select_referral_in, sieve_in in Er. unfold mapping_cands, by_namespace in Er.
+        destruct (find_field "namespace" kvs); [|exact Er].
+        destruct (String.eqb _ totally_not_a_namespace); [destruct Er|].
+        destruct (filter _ cands) eqn:EF; [apply filter_In in Er as [Er _]; exact Er|].
+        rewrite <- EF in Er. apply filter_In in Er as [Er _]. exact Er. }
+      assert (Hne : String.eqb (c_name c) "" = false) by (apply String.eqb_neq; apply Hc; exact Hin).
+      apply np_bind.
+      - unfold set_string_field. rewrite Hne. apply TotalityProofs.set_field_total.
+      - intros n1 _. destruct (String.eqb (c_ns c) "") eqn:E2; [discriminate|].
+        unfold set_string_field. rewrite E2. apply TotalityProofs.set_field_total. }
+    unfold nr_set. destruct (is_null n); [discriminate|]. destruct n as [t s v|kvs|es]; [apply S1|apply S2|].
+    apply np_bind; [|intros; discriminate]. apply np_mapM_in. intros e _. unfold nr_set_elem.
+    destruct (is_null e); [discriminate|]. destruct e; [apply S1|apply S2|discriminate].
+  Qed.
+
+  Lemma np_apply_rules mb ma flags fl : forall r,
+    Forall (fun p => rule_ok (fst p)) fl -> Forall P mb -> Forall P ma -> P r ->
+    np (apply_rules cs nonstr mb ma flags fl r).
+  Proof.
+    induction fl as [|[fs tg] t IH]; intros r Hok Hb Ha Hr; cbn [apply_rules]; [discriminate|].
+    inversion Hok as [|? ? H1 H2]; subst. cbn [fst] in H1.
+    assert (HPl : Forall P (select_by flags (mb ++ r :: ma))).
+    { apply Forall_select_by. apply Forall_app. split; [exact Hb|constructor; assumption]. }
+    apply np_bind.
+    - apply np_mapM_in. intros y Hy. apply np_view. rewrite Forall_forall in HPl. auto.
+    - intros cands Ec. apply np_bind.
+      + unfold apply_rule. apply np_bind; [|intros; discriminate].
+        apply TotalityProofs.fs_filter_no_panic. intros n. apply np_nr_set. eapply view_names; eauto.
+      + intros r1 E1. apply IH; auto. eapply P_same_identity; [eapply apply_rule_identity; eauto|exact Hr].
+  Qed.
+
+  Lemma np_referencable m r : np (referencable cs m r).
+  Proof.
+    unfold referencable. destruct (id_cluster_scoped _); [discriminate|].
+    apply np_bind; [|intros; discriminate]. unfold rolebinding_namespaces.
+    destruct (negb _); [discriminate|]. destruct (map_field_value "subjects" (r_node r)) as [[| |es]|]; try discriminate.
+    induction es as [|e t IH]; cbn [rb_subject_namespaces]; [discriminate|].
+    destruct e as [tg s v|kvs|l]; try discriminate.
+    apply np_bind; [np_case|]. intros here _. apply np_bind; [exact IH|]. intros; discriminate.
+  Qed.
+
+  Lemma np_transform_loop filters : forall done todo,
+    Forall (Forall (fun p => rule_ok (fst p))) filters -> Forall P done -> Forall P todo ->
+    np (transform_loop cs nonstr filters done todo).
+  Proof.
+    induction filters as [|fl filters IH]; intros done todo Hok Hd Ht.
+    - destruct todo; cbn; discriminate.
+    - inversion Hok as [|? ? Hfl Hrest]; subst.
+      destruct todo as [|r t]; cbn [transform_loop]; [discriminate|].
+      inversion Ht as [|? ? Pr Pt]; subst.
+      destruct fl as [|f0 fl'].
+      + apply IH; auto. apply Forall_app. split; [exact Hd|constructor; [exact Pr|constructor]].
+      + apply np_bind; [apply np_referencable|]. intros flags _.
+        apply np_bind; [apply np_apply_rules; auto|]. intros r' E.
+        apply IH; auto. apply Forall_app. split; [exact Hd|constructor; [|constructor]].
+        eapply P_same_identity; [eapply apply_rules_identity; eauto|exact Pr].
+  Qed.
+
+  Lemma np_nameref rules m :
+    effective_rules gen_gvk_order_first gen_gvk_order_last gen_nameref_raw = Ok rules ->
+    Forall P m -> np (nameref_transform cs nonstr rules m).
+  Proof.
+    intros HR HP. unfold nameref_transform.
+    apply np_bind; [apply np_mapM_in; intros r Hr; unfold org_id; apply np_bind;
+                    [apply np_prev_ids; rewrite Forall_forall in HP; exact (proj1 (HP _ Hr))|intros p _; np_case]|].
+    intros orgs _. apply np_transform_loop; [|constructor|exact HP].
+    apply Forall_forall. intros fl Hin. apply in_map_iff in Hin as (org & <- & _).
+    apply filters_for_ok. intros b f Hb Hf. eapply gen_rule_ok; eauto.
+  Qed.
+
+  (* IgnoreLocal panics exactly on an id collision among the resources it keeps *)
+  Lemma np_remove_loop ids kept : forall cur, np (remove_loop ids kept cur).
+  Proof.
+    induction ids as [|id t IH]; intros cur; cbn [remove_loop]; [discriminate|].
+    destruct (existsb _ kept); [apply IH|]. destruct (Nat.eqb _ _); [apply IH|discriminate].
+  Qed.
+
+  Lemma np_ignore_local m : distinct_ids m -> np (ignore_local m).
+  Proof.
+    intros Hd. unfold ignore_local. destruct (negb _); [discriminate|].
+    rewrite (append_all_ok _ []) by (cbn [app]; do 2 apply distinct_ids_filter; exact Hd).
+    apply np_remove_loop.
+  Qed.
+
+  (* the hash suffixes create no id collision (C07_ids_unique_hash_refuted: they can) *)
+  Definition no_hash_clash (t : ptree) : Prop :=
+    forall m m1, accumulate nonstr t = Ok m -> mapM (hash_res nonstr) m = Ok m1 -> distinct_ids m1.
+
+  (* PIPE_build_no_panic_partial *)
+  Theorem build_no_panic o t : tree_wf t -> no_hash_clash t -> build nonstr o t <> Panic.
+  Proof.
+    intros Hwf Hc. unfold build. destruct t as [docs|n d ents]; [discriminate|].
+    apply np_bind; [apply accumulate_no_panic; exact Hwf|]. intros m EA.
+    destruct (accumulate_Inv nonstr _ _ Hwf EA) as [HW _].
+    apply np_bind; [apply np_mapM_in; intros; apply np_hash_res|]. intros m1 EH.
+    assert (HW1 : Forall W m1).
+    { clear -HW EH. apply mapM_Forall2P in EH. induction EH as [|r r' t t' Hr _ IH]; [constructor|].
+      inversion HW; subst. constructor; [eapply hash_res_W; eauto|auto]. }
+    destruct pipe_rules as [rules| | |] eqn:ER; cbn [bind]; try discriminate.
+    assert (ER' : effective_rules gen_gvk_order_first gen_gvk_order_last gen_nameref_raw = Ok rules)
+      by (rewrite <- pipe_rules_eq; exact ER).
+    apply np_bind.
+    { apply np_nameref; [exact ER'|]. clear -HW1. induction HW1; constructor; auto using W_P. }
+    intros m2 EN.
+    assert (Hd2 : distinct_ids m2).
+    { eapply Forall2_same_identity_ids; [eapply gen_transform_identity; eauto|]. eapply Hc; eauto. }
+    apply np_bind; [apply np_ignore_local; exact Hd2|]. intros m2l _.
+    apply np_bind; [destruct o; cbn [sort_resources]; try discriminate; apply np_append_all|]. intros; discriminate.
+  Qed.
+
+  (* the characterisation read the other way: on a well-formed tree a Panic of the build is the
+     FromResourceSlice collision after the hash step *)
+  Corollary build_panic_is_hash_clash o t : tree_wf t -> build nonstr o t = Panic -> ~ no_hash_clash t.
+  Proof. intros Hwf H Hc. exact (build_no_panic o t Hwf Hc H). Qed.
+End TopNoPanic.
+
+(* non-vacuity / necessity: the hash-clash tree IS well-formed, and its build panics *)
+Definition clash_tree : ptree :=
+  PDir "t" (mkPDirs "" "" "" [] [] [] [mkPGen "a" "" "" ["k=v"] "" false [] [] false] [])
+    [PFile [Map [("apiVersion", Scalar TStr SPlain "v1"); ("kind", Scalar TStr SPlain "ConfigMap");
+                 ("metadata", Map [("name", Scalar TStr SPlain "a-bdg947hgcc")])]]].
+
+Ltac solve_creates := first [left; vm_compute; reflexivity | right; vm_compute; reflexivity].
+Ltac solve_dirs_wf :=
+  unfold dirs_wf, no_custom_fields, gens_create; cbn [pd_ns pd_prefix pd_suffix pd_labels pd_cmgens pd_secgens mkPDirs];
+  repeat match goal with
+         | |- _ /\ _ => split
+         | |- Forall _ [] => constructor
+         | |- Forall _ (_ :: _) => constructor
+         | |- creates _ => solve_creates
+         | |- gen_good _ => split; reflexivity
+         | |- _ = true => reflexivity
+         end.
+Ltac solve_wf_node := eexists _, _, _, _, _, _; repeat split; try reflexivity; discriminate.
+
+Example clash_tree_wf : tree_wf clash_tree.
+Proof.
+  constructor; [solve_dirs_wf|]. constructor; [|constructor]. constructor.
+  constructor; [solve_wf_node|constructor].
+Qed.
+
+Example clash_tree_panics : build (fun _ => false) PSortNone clash_tree = Panic.
+Proof. vm_compute. reflexivity. Qed.
+
+(* a well-formed two-layer tree with a namespace directive, prefixes and a generator, without a clash *)
+Definition wf_example_tree : ptree :=
+  PDir "top" (mkPDirs "prod" "p-" "" [] [("app", "x")] [] [] [])
+    [PDir "base" (mkPDirs "" "" "-s" [] [] [] [mkPGen "cfg" "" "" ["k=v"] "" false [] [] false] [])
+       [PFile [Map [("apiVersion", Scalar TStr SPlain "v1"); ("kind", Scalar TStr SPlain "Namespace");
+                    ("metadata", Map [("name", Scalar TStr SPlain "old")])];
+               Map [("apiVersion", Scalar TStr SPlain "v1"); ("kind", Scalar TStr SPlain "Pod");
+                    ("metadata", Map [("name", Scalar TStr SPlain "web")])]]]].
+
+Example wf_example_tree_wf : tree_wf wf_example_tree.
+Proof.
+  constructor; [solve_dirs_wf|]. constructor; [|constructor].
+  constructor; [solve_dirs_wf|]. constructor; [|constructor]. constructor.
+  constructor; [solve_wf_node|]. constructor; [solve_wf_node|constructor].
+Qed.
+
+Example wf_example_names :
+  match build (fun _ => false) PSortNone wf_example_tree with
+  | Ok outs => map get_name outs
+  | _ => []
+  end = ["prod"; "p-web-s"; "p-cfg-s-bdg947hgcc"].
+Proof. vm_compute. reflexivity. Qed.
